@@ -310,13 +310,21 @@ pub fn tiny_op(r: &mut Rng, pool: &mut Vec<u64>) -> Ints {
     }
 }
 
+pub fn extreme_i64(r: &mut Rng) -> i128 {
+    let base = *r.pick(&[i64::MAX as i128, i64::MIN as i128, 1i128 << 62, -(1i128 << 62), (1i128 << 62) + (1i128 << 61)]);
+    let d = r.below(3) as i128;
+    (base + if base > 0 { -d } else { d }).clamp(i64::MIN as i128, i64::MAX as i128)
+}
+
 pub fn sampled_op(r: &mut Rng, pool: &mut Vec<u64>) -> Ints {
     let h = pick_hash(r, pool) as i128;
     let id = r.below(10) as i128;
-    let cost = match r.below(10) {
-        0 => 0,
-        1 => -(r.below(50) as i128),
-        2 => r.below(1 << 40) as i128,
+    let cost = match r.below(20) {
+        0 | 1 => 0,
+        2 | 3 => -(r.below(50) as i128),
+        4 | 5 => r.below(1 << 40) as i128,
+        // the ends of the i64 range: costs are arbitrary i64 values and the accounting wraps
+        6 => extreme_i64(r),
         _ => r.below(60) as i128,
     };
     match r.below(100) {
@@ -327,7 +335,7 @@ pub fn sampled_op(r: &mut Rng, pool: &mut Vec<u64>) -> Ints {
         54..=65 => vec![114, h],
         66..=69 => vec![115, id],
         70 => vec![116],
-        71..=74 => vec![117, r.below(2000) as i128 - 500],
+        71..=74 => vec![117, if r.chance(1, 6) { extreme_i64(r) } else { r.below(2000) as i128 - 500 }],
         75..=77 => vec![118],
         78..=89 => vec![119, cost],
         _ => {
